@@ -12,6 +12,7 @@ pub fn all() -> BTreeMap<String, Predicate> {
     m.insert("never".into(), never as Predicate);
     m.insert("residue_prone_split_ratio".into(), residue_prone_split_ratio as Predicate);
     m.insert("two_sell_lines_one_day".into(), two_sell_lines_one_day as Predicate);
+    m.insert("extreme_magnitude".into(), extreme_magnitude as Predicate);
     m.insert("two_buy_lots_one_day_after_sale_within_30_days".into(), two_buy_lots_after_sale as Predicate);
     m
 }
@@ -116,4 +117,43 @@ fn two_buy_lots_after_sale(i: &Input, c: &Value) -> bool {
                 && l.iter().any(|s| matches!(s.operation, Operation::Sell { .. }) && s.ticker == x.ticker && s.date < x.date && (x.date - s.date).num_days() <= 30)
         })
     })
+}
+
+/// The input (ledger or DSL text) contains a numeric literal >= 1e13 or a non-zero one <= 1e-13. Purely syntactic, so a panic on ordinary magnitudes can never hide in it.
+fn extreme_magnitude(i: &Input, _c: &Value) -> bool {
+    let big = Decimal::from_i128_with_scale(10_000_000_000_000, 0);
+    let small = Decimal::from_i128_with_scale(1, 13);
+    let extreme = |d: &Decimal| (*d >= big) || (!d.is_zero() && d.abs() <= small);
+    match i {
+        Input::Ledger(txs) => txs.iter().any(|t| match &t.operation {
+            Operation::Buy { amount, price, fees } | Operation::Sell { amount, price, fees } => extreme(amount) || extreme(&price.amount) || extreme(&fees.amount),
+            Operation::Dividend { total_value, tax_paid } => extreme(&total_value.amount) || extreme(&tax_paid.amount),
+            Operation::Accumulation { amount, total_value, tax_paid } => extreme(amount) || extreme(&total_value.amount) || extreme(&tax_paid.amount),
+            Operation::CapReturn { amount, total_value, fees } => extreme(amount) || extreme(&total_value.amount) || extreme(&fees.amount),
+            Operation::Split { ratio } | Operation::Unsplit { ratio } => extreme(ratio),
+        }),
+        Input::Text(s) => {
+            // any maximal run of [0-9.] that parses as a decimal in the class; or "RATIO 0"
+            let mut cur = String::new();
+            let mut hit = false;
+            for ch in s.chars().chain(std::iter::once(' ')) {
+                if ch.is_ascii_digit() || ch == '.' {
+                    cur.push(ch);
+                } else {
+                    if !cur.is_empty() {
+                        if let Ok(d) = cur.trim_matches('.').parse::<Decimal>() {
+                            if extreme(&d) {
+                                hit = true;
+                            }
+                        } else if cur.chars().filter(|c| c.is_ascii_digit()).count() > 28 {
+                            hit = true;
+                        }
+                        cur.clear();
+                    }
+                }
+            }
+            hit
+        }
+        Input::Json(_) => false,
+    }
 }
